@@ -607,6 +607,30 @@ fn part2_pyramids(ctx: &Arc<Ctx>) {
 
 fn part2_border(ctx: &Arc<Ctx>) {
 	let levels: Vec<u8> = ctx.tier.pick(vec![4, 8, 9, 15, 16, 17, 30, 31], (4..=31).collect());
+	// geo round trip of every single tile in the 600 rows next to each pole and around the equator (where the Mercator
+	// latitude changes least / most per tile), at every level of the list
+	for &z in &levels {
+		if z < 10 {
+			continue;
+		}
+		let max = ((1u64 << z) - 1) as u32;
+		let rows: Vec<u32> = (0..600u32).chain(max - 599..=max).chain(max / 2 - 300..max / 2 + 300).collect();
+		let mut n = 0u64;
+		for &y in &rows {
+			for x in [0u32, 5, max] {
+				let r = (z, x, y, x, y);
+				let b = TileBBox::new(z, x, y, x, y).unwrap();
+				let g = b.as_geo_bbox();
+				n += 1;
+				match TileBBox::from_geo(z, &g) {
+					Ok(b2) if raw(&b2) == r => {}
+					Ok(b2) => ctx.violation(&format!("tile box -> geo -> tile box is not the identity at z={z}"), &format!("{r:?} -> {g:?} -> {:?}", raw(&b2)), json!({"kind":"border-box","state": r})),
+					Err(e) => ctx.violation("tile box -> geo -> tile box fails", &format!("{r:?} -> {g:?}: {e}"), json!({"kind":"border-box","state": r})),
+				}
+			}
+		}
+		ctx.outcome_n(&format!("single tiles next to the poles and the equator, geo round trip, z={z}"), n);
+	}
 	for z in levels {
 		let max = ((1u64 << z) - 1) as u32;
 		let mid = max / 2;
